@@ -278,6 +278,7 @@ def _pool():
 
 
 def _run_session(tag, cfg, scenarios, model_coarse=None):
+    tag = f"{tag}_{os.getpid()}_{id(scenarios)}"
     """-> parsed session output (simulated kills, one process)"""
     w = os.path.join(_work(), "sess_" + tag)
     shutil.rmtree(w, ignore_errors=True)
